@@ -93,9 +93,30 @@ def run(F, R, tier):
     R.ob("C12-b", "validation passes only after every module's hash was compared", ok,
          "is_cache_item_valid can return true before all of cache_item.modules were checked", iv["file"])
     if fors:
+        cmpn = [n for n in walk(fors[0]["body"]) if n.get("k") == "Binary" and n["op"] in ("!=", "==") and "source_hash" in expr_text(n)]
+        bad, _ = must_pass(F, fors[0]["body"], lambda n: n in cmpn, exit_kinds=("fallthrough", "continue", "break"))
+        R.ob("C12-b", "every cache entry kind (emitted or diagnostic) has its source hash compared", bool(cmpn) and not bad,
+             "an iteration of the validation loop can finish without comparing the source hash: such entries are accepted although their source changed", where(fors[0]))
         cmp_ = [n for n in walk(fors[0]["body"]) if n.get("k") == "Binary" and n["op"] in ("!=", "==")]
         ok = len(cmp_) == 1 and "source_hash" in expr_text(cmp_[0]) and "hash" in expr_text(cmp_[0]["l"])
         R.ob("C12-b", "validation compares the current source hash with the recorded one", ok, "comparison is `%s`" % (expr_text(cmp_[0]) if cmp_ else "?"), where(fors[0]))
+    # dependencies replayed from a cache hit
+    deps = [n for n in tg["_nodes"] if n["k"] == "For" and "dependencies" in expr_text(n["iter"])]
+    ok = len(deps) == 1 and any(callee_matches(x, ["PublicRangeFinder::add_pending_nv_no_referrer"]) for x in walk(deps[0]["body"]))
+    R.ob("C12-b", "a cache hit re-queues every recorded dependency package", ok, "cached dependencies are not replayed", tg["file"])
+    apn = F.body("fast_check::range_finder::PublicRangeFinder::add_pending_nv")
+    fl = Flow(F, lambda n: n.get("k") == "MethodCall" and n["name"] == "insert" and peel(n["recv"]).get("field") == "dependencies")
+    fl.run(apn["body"]["value"], False)
+    bad = []
+    for kind, node, st in fl.exits:
+        if st is False and kind in ("return", "fallthrough"):
+            g = guards_at(F, node) if kind == "return" else []
+            if any(x.kind == "cond" and x.pol and x.node.get("k") == "Binary" and x.node["op"] == "==" for x in g):
+                continue
+            bad.append(node)
+    R.ob("C12-b", "the dependency list that goes into a cache entry records every referenced package of that referrer", not bad,
+         "add_pending_nv can return without recording the dependency for this referrer (e.g. when the package was already seen through another referrer): a later cache hit for this referrer would not re-queue it", where(bad[0]) if bad else "")
+
     # ---------------- C12-c ------------------------------------------------
     shapes = []
     for b in (bf, iv):
